@@ -120,6 +120,18 @@ def scenarios_c13(seed, tier):
     return groups
 
 
+def scenarios_c13_kill(seed, tier):
+    """The updating process is killed (SIGKILL) a few milliseconds after its k-th commit, several times in a row."""
+    groups = {}
+    settings = [(3, 4, 2)] if tier == "quick" else [(3, 4, 2), (1, 2, 1), (2, 3, 2), (7, 10, 2)]
+    n = 2 if tier == "quick" else 8
+    for k, (ci, si, ms) in enumerate(settings):
+        delays = ",".join(str(c * 1000 + j) for c, j in [(2, 0), (3, 1), (2, 3), (4, 7), (3, 13), (2, 21), (5, 2), (1, 5)][: 6 if tier == "quick" else 8])
+        groups[(ci, si, ms)] = _gen(WORK + "/g", "kill", seed * 47 + k, n,
+                                    settings_args(ci, si, ms) + ["--more", "70", "--delays", delays, "--tag", "kl%d_%d_%d_%d" % (seed, ci, si, ms)])
+    return groups
+
+
 def scenarios_c12(seed, tier):
     groups = {}
 
@@ -271,9 +283,20 @@ def run(prop, tier, seed):
     elif prop == "C13":
         groups = scenarios_c13(seed, tier)
         st = run_groups(prop, groups, outcome, ["C13"])
+        # kills at arbitrary moments: no hook decides where, so the event stream may lag behind what is durable --
+        # these runs are judged by ProtoTrace only (height at least the last reported commit, content equal to a
+        # from-scratch index of that prefix and of the tip), not by the strict replay
+        st2 = run_groups(prop, scenarios_c13_kill(seed, tier), outcome, ["C13"], strict=False, update_timeout=60)
+        for k, v in st2.items():
+            if isinstance(v, set):
+                st[k] |= v
+            elif isinstance(v, int) and k not in ("matched", "total"):
+                st[k] += v
         rule = ("fault enumeration: every crash point of the guarded tracer x occurrence x settings, a child process "
                 "aborts there while indexing; the parent reopens, compares count with the last durable commit, content "
-                "with a from-scratch index of that prefix, continues to the tip and compares again; distinct_nontrivial = "
+                "with a from-scratch index of that prefix, continues to the tip and compares again; in addition the updating "
+                "process is killed (SIGKILL, no hook) a few milliseconds after its k-th commit, several times in a row, while it "
+                "works through a 70-block backlog with frequent commits; distinct_nontrivial = "
                 "distinct (crash point, occurrence, recovered count, durable history, settings)")
     elif prop == "C12":
         groups = scenarios_c12(seed, tier)
